@@ -481,6 +481,11 @@ class Run:
     # -- finish --
     def finish(self) -> int:
         EVIDENCE.mkdir(exist_ok=True)
+        # safety net: a proof obligation that no longer checks is a violation even when the only failures found on the implementation
+        # are listed known findings (they explain nothing about a broken proof): the property is no longer shown to hold
+        pf = getattr(self, "proof_failure", None)
+        if pf and not self.violations:
+            self.violation({"kind": "obligation", "theorem_or_correspondence": pf.get("lemma"), **pf}, tag="obligation-" + str(pf.get("lemma")), no_input=True)
         cov = self.coverage
         cov["samples"] = cov["samples"][:12] or ["<none>"]
         ev = {
